@@ -303,7 +303,8 @@ def extra_units():
     from contracts import c02
     from pyvc.units import share
     want = ('layout[CELSeq1_c8_u4]', 'layout[chrom10x_c16_u12]', 'layout[CELSeq2_c8_u6]', 'layout[SCCHIC_384w_c8_u3]')
-    return [share(u, PROP) for u in c02.UNITS if u.name in want]
+    # ... and of the scattered layouts (UMI and barcode in alternating pieces: their own demultiplex method)
+    return [share(u, PROP) for u in c02.UNITS if u.name in want or 'SCA' in getattr(u, 'name', '')]
 
 
 # ------------------------------------------------------------------------------ _parse_illumina_header: what goes into the name
